@@ -28,22 +28,109 @@ Proof.
 Qed.
 Print Assumptions C02_rejected_names.
 
-(** A name the lookup refuses, a destination whose endpoint is not
-    connected, or a server without lookup: nothing is dialled. *)
+(** A name the lookup refuses (it returned an error - with or without a
+    destination next to it), a name for which it returned neither, a
+    destination whose endpoint is not connected, or a server without lookup:
+    nothing is dialled or served, the route is an error return. *)
 Theorem C02_refused_names : forall (is_ip : bytes -> bool) cfg sni,
-  (has_lookup cfg = false \/ lookup cfg sni = None \/
-   exists d, lookup cfg sni = Some d /\ d_home d = false /\ d_forward d = [] /\
+  (has_lookup cfg = false \/ lk_err (lookup cfg sni) = true \/ lk_dest (lookup cfg sni) = None \/
+   exists d, lk_dest (lookup cfg sni) = Some d /\ d_home d = false /\ d_forward d = [] /\
              registry cfg (d_name d) = None) ->
-  endpoint_dials (decide is_ip gen_rejected_suffixes cfg sni) = [].
+  endpoint_dials (decide is_ip gen_rejected_suffixes cfg sni) = [] /\
+  served (decide is_ip gen_rejected_suffixes cfg sni) = false /\
+  refusal (decide is_ip gen_rejected_suffixes cfg sni) = true.
 Proof. exact (fun is_ip => refused_names is_ip gen_rejected_suffixes). Qed.
 Print Assumptions C02_refused_names.
+
+(** The statements of isRejectedDomain and Server.dial as the translator
+    emits them from the current source, interpreted ([run_host]), are the
+    closed form [decide] the other theorems speak about. *)
+Theorem C02_emitted_code_is_decide : forall (is_ip : bytes -> bool) cfg sni,
+  run_host is_ip gen_rejected_steps gen_dial_steps cfg sni
+  = decide is_ip gen_rejected_suffixes cfg sni.
+Proof. exact gen_run_host_decide. Qed.
+Print Assumptions C02_emitted_code_is_decide.
+
+(** Over the emitted step list of Server.dial: the error of the lookup alone
+    decides.  For every emitted list in which the lookup is followed at once
+    by a guard that fires whenever err != nil (whatever dest is) and whose body
+    returns a non-nil error - [lookup_err_guarded], decided by computation on
+    the current list in [C02_source_tie] - a name for which the lookup returns
+    an error is refused whether or not a destination came with the error:
+    error return, no endpoint / home / forward dial. *)
+Theorem C02_lookup_error_always_refuses : forall steps cfg sni,
+  lookup_err_guarded steps = true ->
+  has_lookup cfg = true ->
+  lk_err (lookup cfg sni) = true ->
+  refusal (run_dial cfg sni steps st0) = true /\
+  served (run_dial cfg sni steps st0) = false /\
+  endpoint_dials (run_dial cfg sni steps st0) = [].
+Proof. exact lookup_error_always_refuses. Qed.
+Print Assumptions C02_lookup_error_always_refuses.
+
+Theorem C02_lookup_error_always_refuses_here : forall cfg sni,
+  has_lookup cfg = true ->
+  lk_err (lookup cfg sni) = true ->
+  refusal (run_dial cfg sni gen_dial_steps st0) = true /\
+  served (run_dial cfg sni gen_dial_steps st0) = false /\
+  endpoint_dials (run_dial cfg sni gen_dial_steps st0) = [].
+Proof. exact gen_lookup_error_always_refuses. Qed.
+Print Assumptions C02_lookup_error_always_refuses_here.
+
+(** All four shapes of the lookup result (destination or nil) x (error or
+    nil): the decision never dereferences nil, never hands a nil connection
+    to the join, and is either a refusal or a served connection; served only
+    when the lookup gave a destination and no error. *)
+Theorem C02_dial_total : forall (is_ip : bytes -> bool) cfg sni,
+  crashes (decide is_ip gen_rejected_suffixes cfg sni) = false /\
+  refusal (decide is_ip gen_rejected_suffixes cfg sni)
+  = negb (served (decide is_ip gen_rejected_suffixes cfg sni)).
+Proof. exact (fun is_ip => decide_total is_ip gen_rejected_suffixes). Qed.
+Print Assumptions C02_dial_total.
+
+Theorem C02_served_only_without_error : forall (is_ip : bytes -> bool) cfg sni,
+  served (decide is_ip gen_rejected_suffixes cfg sni) = true ->
+  is_rejected is_ip gen_rejected_suffixes sni = false /\ has_lookup cfg = true /\
+  lk_err (lookup cfg sni) = false /\ exists d, lk_dest (lookup cfg sni) = Some d.
+Proof. exact (fun is_ip => served_only_without_error is_ip gen_rejected_suffixes). Qed.
+Print Assumptions C02_served_only_without_error.
+
+(** Every return of hostConn (as emitted from the current source) between
+    accepting the front connection and the join: whatever HelloInfo returns
+    ([sniff]; None = any error) and whether or not the dial succeeds, the front
+    connection is closed when hostConn returns; bytes flow (JoinConn runs) only
+    for a sniffed, not rejected name whose route selects a destination and
+    whose dial succeeds; with a sniffing error or a rejected name the dialer
+    is not called; a connection that was dialled is closed again. *)
+Theorem C02_every_error_return_serves_nothing : forall (is_ip : bytes -> bool) cfg sniff dial_ok,
+  exists o,
+    run_front is_ip gen_rejected_steps gen_dial_steps cfg sniff dial_ok gen_host_steps hs0 = FOut o /\
+    fo_front_closed o = true /\
+    (fo_joined o = true <->
+       exists name, sniff = Some name /\
+                    served (decide is_ip gen_rejected_suffixes cfg name) = true /\ dial_ok = true) /\
+    ((sniff = None \/ exists name, sniff = Some name /\ is_rejected is_ip gen_rejected_suffixes name = true) ->
+       fo_dial o = None /\ fo_joined o = false) /\
+    fo_remote_closed o = fo_joined o.
+Proof. exact gen_front_outcomes. Qed.
+Print Assumptions C02_every_error_return_serves_nothing.
+
+(** Why the premise matters: a list that tests the destination instead of the
+    error does not satisfy it, and serves a name the lookup refused. *)
+Theorem C02_dest_tested_serves_refused_name : forall cfg sni d ep,
+  lookup_err_guarded dest_tested_steps = false /\
+  (has_lookup cfg = true -> lookup cfg sni = mkLk (Some d) true ->
+   d_home d = false -> d_forward d = [] -> registry cfg (d_name d) = Some ep ->
+   run_dial cfg sni dest_tested_steps st0 = REndpoint ep (d_name d)).
+Proof. exact (fun cfg sni d ep => conj dest_tested_not_guarded (dest_tested_serves_refused_name cfg sni d ep)). Qed.
+Print Assumptions C02_dest_tested_serves_refused_name.
 
 (** ** The selected endpoint, and only it *)
 
 Theorem C02_deliver_only_selected : forall (is_ip : bytes -> bool) cfg sni ep n,
   decide is_ip gen_rejected_suffixes cfg sni = REndpoint ep n <->
   is_rejected is_ip gen_rejected_suffixes sni = false /\ has_lookup cfg = true /\
-  exists d, lookup cfg sni = Some d /\ d_home d = false /\ d_forward d = [] /\
+  exists d, lookup cfg sni = mkLk (Some d) false /\ d_home d = false /\ d_forward d = [] /\
             d_name d = n /\ registry cfg n = Some ep.
 Proof. exact (fun is_ip => deliver_only_selected is_ip gen_rejected_suffixes). Qed.
 Print Assumptions C02_deliver_only_selected.
@@ -186,6 +273,8 @@ Theorem C02_source_tie :
   gen_rejected_steps = deployed_rj_steps /\
   gen_rejected_suffixes = deployed_suffixes /\
   list_eqb dial_step_eqb gen_dial_steps deployed_dial_steps = true /\
+  lookup_err_guarded gen_dial_steps = true /\
+  list_eqb host_step_eqb gen_host_steps deployed_host_steps = true /\
   reject_before_dialb = true /\
   list_eqb String.eqb gen_host_conn_calls deployed_host_conn_calls = true /\
   (gen_lock_violations = [] /\
@@ -193,8 +282,9 @@ Theorem C02_source_tie :
   RouteGen.src_diff gen_route_src frozen_route_src = [].
 Proof.
   exact (conj gen_rejected_steps_eq (conj gen_suffixes_eq (conj gen_dial_steps_deployed
+          (conj gen_dial_lookup_err_guarded (conj gen_host_steps_deployed
           (conj gen_reject_before_dial (conj gen_host_conn_calls_deployed
-            (conj gen_lock_skeleton gen_route_src_frozen)))))).
+            (conj gen_lock_skeleton gen_route_src_frozen)))))))).
 Qed.
 Print Assumptions C02_source_tie.
 
@@ -202,12 +292,15 @@ Print Assumptions C02_source_tie.
 
 Definition ascii_bytes (s : string) : bytes := bytes_of_string s.
 
-(** A server with lookup, two endpoints, and a table. *)
+(** A server with lookup, two endpoints, and a table in which every shape of
+    lookup result occurs: (dest, nil), (nil, err), (dest, err), (nil, nil). *)
 Definition ex_cfg : server_cfg :=
   mkCfg true
-    (fun d => if beqb d (ascii_bytes "site1.example") then Some (mkDest (ascii_bytes "/ep1") false [])
-              else if beqb d (ascii_bytes "ghost.example") then Some (mkDest (ascii_bytes "/ghost") false [])
-              else None)
+    (fun d => if beqb d (ascii_bytes "site1.example") then mkLk (Some (mkDest (ascii_bytes "/ep1") false [])) false
+              else if beqb d (ascii_bytes "ghost.example") then mkLk (Some (mkDest (ascii_bytes "/ghost") false [])) false
+              else if beqb d (ascii_bytes "suspended.example") then mkLk (Some (mkDest (ascii_bytes "/ep1") false [])) true
+              else if beqb d (ascii_bytes "void.example") then mkLk None false
+              else mkLk None true)
     false
     (fun n => if beqb n (ascii_bytes "/ep1") then Some 1
               else if beqb n (ascii_bytes "/ep2") then Some 2 else None).
@@ -227,6 +320,36 @@ Proof.
   vm_compute. repeat split.
   exists ".after.blue"%string, (ascii_bytes "site1.example"). split; [right; left; reflexivity|reflexivity].
 Qed.
+
+(** The four shapes through the emitted statements: the name whose lookup
+    returns the connected endpoint /ep1 *together with an error* is refused;
+    the list that tests the destination instead serves it; (nil, nil) is a
+    clean refusal, and was a nil dereference before the guard on dest. *)
+Example C02_nonvacuous_four_shapes :
+  let run := fun steps n => run_dial ex_cfg (ascii_bytes n) steps st0 in
+  has_lookup ex_cfg = true /\
+  lk_err (lookup ex_cfg (ascii_bytes "suspended.example")) = true /\
+  run gen_dial_steps "site1.example"%string = REndpoint 1 (ascii_bytes "/ep1") /\
+  run gen_dial_steps "nobody.example"%string = RLookupErr /\
+  run gen_dial_steps "suspended.example"%string = RLookupErr /\
+  run gen_dial_steps "void.example"%string = RNoDest /\
+  run dest_tested_steps "suspended.example"%string = REndpoint 1 (ascii_bytes "/ep1") /\
+  run [DNoLookup; DDomain; DLookup; DGuard CErrNonNil (BRet XErr); DHomeForward; DEndpoint;
+       DGuard CErrNonNil (BRet XAnnotErr); DDial] "void.example"%string = RPanic.
+Proof. vm_compute. repeat split. Qed.
+
+(** hostConn on four connections: a hello that cannot be sniffed, a served
+    name whose dial succeeds / fails, and the name refused with a destination. *)
+Example C02_nonvacuous_front :
+  let run := fun sniff ok => run_front (fun _ => false) gen_rejected_steps gen_dial_steps ex_cfg
+                               sniff ok gen_host_steps hs0 in
+  run None true = FOut (mkOut true None false false) /\
+  run (Some (ascii_bytes "site1.example")) true
+    = FOut (mkOut true (Some (REndpoint 1 (ascii_bytes "/ep1"))) true true) /\
+  run (Some (ascii_bytes "site1.example")) false
+    = FOut (mkOut true (Some (REndpoint 1 (ascii_bytes "/ep1"))) false false) /\
+  run (Some (ascii_bytes "suspended.example")) true = FOut (mkOut true (Some RLookupErr) false false).
+Proof. vm_compute. repeat split. Qed.
 
 (** Two dials interleaved (ids 0 and 1 from the counter, keys 77 and 78),
     the endpoint's connections arriving in the opposite order, each named
